@@ -75,9 +75,16 @@ class _EvalOrder(DefaultVisitor):
     def _visit_block(self, block: StmtBlock, ctx: None):
         pass
 
+    def _visit_indexed_assign(self, stmt: IndexedAssign, ctx: None):
+        # the stored value is evaluated before the indices
+        self._visit_expr(stmt.expr, ctx)
+        for index in stmt.indices:
+            self._visit_expr(index, ctx)
 
-_READS_A_LIST = (ListRef, ListSlice, ListComp, Call, Sum, AMin, AMax, AnyOf, AllOf, Enumerate, Zip)
-"""expressions whose value may depend on what a list holds, or on a callee"""
+
+_READS_A_LIST = (ListRef, ListSlice, ListComp, Call, Sum, AMin, AMax, AnyOf, AllOf, Enumerate, Zip, Compare)
+"""expressions whose value may depend on what a list holds (`==` compares
+lists element by element), or on a callee"""
 
 
 @dataclass
@@ -101,8 +108,9 @@ def _reorders(e: Call, order: list[Expr], def_use: DefineUseAnalysis) -> str | N
     """Why splicing the body of the callee of *e* ahead of its statement would
     change what the statement computes, or `None` where it would not.
 
-    *order* is what the statement evaluates, in order.  The body moves ahead
-    of everything the statement evaluates before the call.  That is
+    *order* is what the statement evaluates, in order.  The body -- and with
+    it the call's own arguments, which are bound just ahead of it -- moves
+    ahead of everything the statement evaluates before the call.  That is
     unobservable when nothing evaluated earlier reads a list or calls
     anything, or when neither side stores into one.
     """
@@ -116,7 +124,8 @@ def _reorders(e: Call, order: list[Expr], def_use: DefineUseAnalysis) -> str | N
     earlier = [x for x in order[:idx] if id(x) not in inner and isinstance(x, _READS_A_LIST)]
     if not earlier:
         return None
-    if Purity.analyze(e.fn.ast) and all(Purity.analyze_expr(x, def_use) for x in earlier if isinstance(x, Call)):
+    moved = [x for x in own.order if x is not e and isinstance(x, Call)]
+    if Purity.analyze(e.fn.ast) and all(Purity.analyze_expr(x, def_use) for x in earlier + moved if isinstance(x, Call)):
         return None
     return (
         f'inlining `{e.fn.name}` here would run its body before `{earlier[0].format()}`, '
@@ -278,16 +287,17 @@ class _FuncInline(SiteRewriter):
         # bind arguments to parameters
         for arg, param in zip(e.args, ast.args):
             arg = self._visit_expr(arg, ctx)
-            if isinstance(param.name, NamedId):
-                name = subst.get(param.name, param.name)
-                bind: Stmt = Assign(name, param.type, arg, e.loc)
-                if ctx.is_ctx_expr and not isinstance(arg, Var):
-                    # the header of a `with` evaluates its arguments exactly;
-                    # bound ahead of the statement, a computed argument would
-                    # run under the ambient context (a name lookup rounds
-                    # nothing, so it needs no scope of its own)
-                    bind = ContextStmt(UnderscoreId(), ForeignVal(REAL, None), StmtBlock([bind]), e.loc)
-                ctx.stmts.append(bind)
+            # a parameter named `_` binds nothing, but its argument is
+            # evaluated all the same (it may call something that stores)
+            name: Id = subst.get(param.name, param.name) if isinstance(param.name, NamedId) else UnderscoreId()
+            bind: Stmt = Assign(name, param.type, arg, e.loc)
+            if ctx.is_ctx_expr and not isinstance(arg, Var):
+                # the header of a `with` evaluates its arguments exactly;
+                # bound ahead of the statement, a computed argument would
+                # run under the ambient context (a name lookup rounds
+                # nothing, so it needs no scope of its own)
+                bind = ContextStmt(UnderscoreId(), ForeignVal(REAL, None), StmtBlock([bind]), e.loc)
+            ctx.stmts.append(bind)
 
         # bind the return value to a fresh variable and splice into the current block
         t = self.gensym.fresh('t')
